@@ -27,7 +27,8 @@ CHECKS = {
               "of any thread the directory image is rebuilt and the real Open + Get of every key runs on it; TLC (CrashJudge.tla) judges "
               "each crash point against the acknowledged / in-flight operations recorded in the same totally ordered log, validates the "
               "syscall sequence as enabled steps of the disk protocol (DiskProtoTrace.tla) and evaluates the specification's RecMap / OpenFails "
-              "on the decoded content of every image, which must equal what the real recovery produced (DiskImageTrace.tla)."),
+              "on the decoded content of every image, which must equal what the real recovery produced (DiskImageTrace.tla); after every "
+              "recovery the session goes on (Put, regular flush, restart) and must keep what the recovery showed."),
         design_ref="§5 C02, §4.4",
         note="kill -9 model (completed syscalls persist, a syscall is atomic); needs ptrace; one schedule per recorded session",
         technique="TLA+ disk-protocol spec + TLC exhaustive crash exploration; strace crash-image enumeration of the real code judged by TLC",
@@ -38,7 +39,8 @@ CHECKS = {
               "along recovery steps; on the real code the Open of representative level-1 crash images runs under strace, every syscall "
               "boundary inside it (plus other unlink orders inside RemoveAll) yields a level-2 image, the real recovery completes on each and "
               "TLC requires the map of the uninterrupted recovery, the recorded recovery to be enabled protocol steps, and the real result to "
-              "equal the specification's RecMap on every decoded level-2 image (DiskImageTrace.tla)."),
+              "equal the specification's RecMap on every decoded level-2 image (DiskImageTrace.tla); after every recovery the session goes on "
+              "(Put, regular flush, restart) and must keep what the recovery showed."),
         design_ref="§5 C10",
         note="depth two on the real code, deeper only on the model; representatives chosen per abstract disk class",
         technique="TLA+ spec + TLC exhaustive nested crashes; nested strace crash-image enumeration judged by TLC",
@@ -166,8 +168,10 @@ CHECKS = {
               "cycles (GC off), including Close calls gated to overlap a compaction between merge and reflect, drive the specification's "
               "actions through their hook events (ResTrace.tla: a step that is not enabled is rejected) and are observed at quiescent points "
               "through /proc/self/fd, /proc/self/maps and the goroutine dump: table count, mappings and descriptors equal the model's (manual "
-              "compaction) or are bounded by live tables + 4 (background compaction); none and no module goroutine after Close.  Library "
-              "readers / writers / WAL through complete and abandoned scans."),
+              "compaction) or are bounded by live tables + 4 (background compaction); none and no module goroutine after Close - also when Close's "
+              "own last flush is held for 33 s (Close must still be waiting) and when a directory with a torn WAL tail / an empty compaction "
+              "marker is opened and closed in-process.  Library level: readers with every index loader, all 1 711 interleavings of up to three "
+              "scanner life cycles enumerated by TLC from Scanners.tla, RecordIO readers / writers, WAL incl. torn tails."),
         design_ref="§5 C19",
         note="observations only outside a running compaction cycle (its private readers are bounded by the inputs); Linux /proc",
         technique="TLA+ spec + TLC exhaustive check; observations of real executions trace-validated by TLC",
